@@ -32,13 +32,13 @@ structure D where
   be : BeL
   cache : FS
   dirs : List Path := []
-  /-- dangling symlinks (target in a directory that does not exist) -/
-  links : List Path := []
+  /-- symlinks: dangling (`none`: target in a directory that does not exist) or to a regular file outside the cache dir -/
+  links : List (Path × Option Bytes) := []
 
 def D.st (d : D) : St := { be := fun k => bget d.be k, cache := { files := d.cache, links := d.links }, dirs := d.dirs }
 
 /-- something that is not a directory sits at `r` (a regular file or a dangling symlink): nothing can be created below -/
-def D.nonDirAt (d : D) (r : Path) : Bool := (fget d.cache r).isSome || d.links.contains r
+def D.nonDirAt (d : D) (r : Path) : Bool := (fget d.cache r).isSome || (lget d.links r).isSome
 
 def pathOf (p : String) : Path := (p.splitOn "/").map String.toList
 
@@ -57,7 +57,8 @@ def D.withCache (d : D) (c : CD) : D :=
 def layoutC (d : D) : String :=
   joinOr (d.cache.map (fun e => "/".intercalate (e.1.map String.ofList) ++ ":" ++ toString e.2.length)
     ++ (d.dirs.filter (fun q => q.length ≥ 3)).map (fun q => "/".intercalate (q.map String.ofList) ++ "/")
-    ++ d.links.map (fun q => "/".intercalate (q.map String.ofList) ++ "@"))
+    ++ d.links.map (fun e => "/".intercalate (e.1.map String.ofList) ++ "@" ++
+        (match e.2 with | some b => toString b.length | none => "")))
 
 def resStr : Res Bytes → String
   | .ok b => digest b
@@ -117,7 +118,8 @@ def stepOne (d : D) (s : String) : Option (String × D) :=
     (dataOf data).map (fun x =>
       let q := pathOf p
       -- `create_dir_all(parent)` then `fs::write`: fails on a directory, through a dangling symlink, and below a non-directory
-      if hasDir d.dirs q || d.links.contains q || (parents q).any d.nonDirAt then ("err", d)
+      if hasDir d.dirs q || lget d.links q == some none || (parents q).any d.nonDirAt then ("err", d)
+      else if (lget d.links q).isSome then ("ok", { d with links := (q, some x) :: ldel d.links q })   -- written through the link
       else ("ok", { d with cache := fput d.cache q x, dirs := addDirs d.dirs (parents q) }))
   | ["m", p] =>
     if !goodPath p then none else
@@ -130,19 +132,26 @@ def stepOne (d : D) (s : String) : Option (String × D) :=
     let q := pathOf p
     -- `create_dir_all(parent)` then `symlink`: fails when anything is at the path, or a parent is not a directory
     if d.nonDirAt q || hasDir d.dirs q || (parents q).any d.nonDirAt then some ("err", d)
-    else some ("ok", { d with links := d.links ++ [q], dirs := addDirs d.dirs (parents q) })
+    else some ("ok", { d with links := d.links ++ [(q, none)], dirs := addDirs d.dirs (parents q) })
+  | ["y", p, data] =>
+    if !goodPath p then none else
+    (dataOf data).map (fun x =>
+      let q := pathOf p
+      -- a symlink to a fresh regular file (outside the cache dir) holding `x`
+      if d.nonDirAt q || hasDir d.dirs q || (parents q).any d.nonDirAt then ("err", d)
+      else ("ok", { d with links := d.links ++ [(q, some x)], dirs := addDirs d.dirs (parents q) }))
   | ["t", p, n] =>
     if !goodPath p then none else
     match n.toNat? with
     | none => none
     | some n =>
       let q := pathOf p
-      match (if hasDir d.dirs q || d.links.contains q then none else fget d.cache q) with
+      match (if hasDir d.dirs q || (lget d.links q).isSome then none else fget d.cache q) with
       | some x => some ("ok", if n < x.length then { d with cache := fput d.cache q (x.take n) } else d)
       | none => some ("ok", d)
   | ["x", p] =>
     if !goodPath p then none else
-    some ("ok", { d with cache := fdel d.cache (pathOf p), links := d.links.filter (fun q => q != pathOf p) })
+    some ("ok", { d with cache := fdel d.cache (pathOf p), links := ldel d.links (pathOf p) })
   | ["f"] => some (layoutC d, d)
   | ["b"] =>
     some (joinOr (d.be.map (fun e => toString (tIdx e.1.1) ++ "/" ++ String.ofList e.1.2 ++ ":" ++ digest e.2)), d)
